@@ -46,12 +46,17 @@ def fmt_date(d, layout):
     return d.isoformat() if layout == 'iso' else '%s %d, %d' % (dt.MONTHS['en-us'][d.month - 1], d.day, d.year)
 
 
-def fmt_time(t, layout):
+def fmt_time(t, layout, sec=None):
     h, m = t
+    ss = '' if sec is None else ':%02d' % sec
     if layout == '24h':
-        return '%d:%02d' % (h, m)
+        return '%d:%02d%s' % (h, m, ss)
     hh = h % 12 or 12
-    return '%d:%02d%s' % (hh, m, 'am' if h < 12 else 'pm')
+    return '%d:%02d%s%s' % (hh, m, ss, 'am' if h < 12 else 'pm')
+
+
+# endpoints written to the second: (seconds of the first endpoint, seconds of the second) - remainders in every term of the span
+SECONDS = (None, (15, 50), (45, 10))
 
 
 def check_range(ch, cls, q, typ, start, end):
@@ -72,6 +77,8 @@ def check_range(ch, cls, q, typ, start, end):
             'endpoint=%s' % bad_exp
         if '-02-29' in start or '-02-29' in end:
             sig += '|one-endpoint-is-feb-29'
+        if (v.get('start'), v.get('end')) == (start[:-2] + '00', end[:-2] + '00') and (start[-2:], end[-2:]) != ('00', '00'):
+            sig = 'seconds-dropped'
         ch.fail('%s|endpoints|%s' % (cls, sig), rec)
         return
     err = dt.triple_consistent(v)
@@ -124,17 +131,23 @@ def body(ch):
         a, b = TIMES[i], TIMES[j]
         if layout == '24h' and (1 <= a[0] <= 12 or 1 <= b[0] <= 12):
             ch.prune()          # ambiguous hours have two readings: outside "absolute endpoints"
-        check_range(ch, 'time-range|%s' % layout, form % (fmt_time(a, layout), fmt_time(b, layout)), 'timerange',
-                    '%02d:%02d:00' % a, '%02d:%02d:00' % b)
+        sec = ch.pick('seconds', SECONDS)
+        sa, sb = sec or (None, None)
+        check_range(ch, 'time-range|%s%s' % (layout, '|to-the-second' if sec else ''),
+                    form % (fmt_time(a, layout, sa), fmt_time(b, layout, sb)), 'timerange',
+                    '%02d:%02d:%02d' % (a + (sa or 0,)), '%02d:%02d:%02d' % (b + (sb or 0,)))
     elif part == 'datetime-range':
         form = ch.pick('form', ('from %s to %s', 'between %s and %s'))
         ch.shard()
         i = ch.pick_index('A', len(DATETIMES) - 1)
         j = ch.pick('B', range(i + 1, len(DATETIMES)))
         a, b = DATETIMES[i], DATETIMES[j]
-        f = lambda x: '%s %s' % (x.date().isoformat(), fmt_time((x.hour, x.minute), '12h'))
-        check_range(ch, 'datetime-range', form % (f(a), f(b)), 'datetimerange', a.strftime('%Y-%m-%d %H:%M:%S'),
-                    b.strftime('%Y-%m-%d %H:%M:%S'))
+        sec = ch.pick('seconds', SECONDS)
+        sa, sb = sec or (None, None)
+        a, b = a.replace(second=sa or 0), b.replace(second=sb or 0)
+        f = lambda x, ss: '%s %s' % (x.date().isoformat(), fmt_time((x.hour, x.minute), '12h', ss))
+        check_range(ch, 'datetime-range%s' % ('|to-the-second' if sec else ''), form % (f(a, sa), f(b, sb)), 'datetimerange',
+                    a.strftime('%Y-%m-%d %H:%M:%S'), b.strftime('%Y-%m-%d %H:%M:%S'))
     else:
         cases = CFG['spec_cases']
         ci = ch.pick_index('chunk', (len(cases) + 39) // 40)
